@@ -20,7 +20,10 @@ is *not yet proved* (see notes/C02.md); it is tied to the implementation by the 
 `print.stmt` (exact equality of `String()` with the model's printer on every parsed statement) and
 by the double round trip run on the implementation. Proved here, for all values: the lexical core
 of the round trip — what the printers write for integers, unsigned integers, durations and
-regular expressions is read back as the same value by the literal parsers of the model.
+regular expressions is read back as the same value by the literal parsers of the model — and the
+round trip at text level for the administrative statement families (everything without
+expressions, source lists and SELECT; see "statement families at text level" below and
+`Lemmas/StmtPieces.lean`), including the dispatch on the printed keywords.
 -/
 namespace InfluxQL.C02
 open InfluxQL Gen
